@@ -786,6 +786,17 @@ EXPORT errno_t _wcsnorm_reorder_s_chk(wchar_t *restrict dest, rsize_t dmax,
         if (cp > 0xffff) {
             p++;
         }
+#else
+        /* A surrogate pair can only represent max _UNICODE_MAX */
+        if (unlikely(_UNICODE_MAX < cp)) {
+            if (seq_ext)
+                free(seq_ext);
+            handle_werror(orig_dest, orig_dmax,
+                          "wcsnorm_reorder_s: "
+                          "cp is too high",
+                          ESLEMAX);
+            return RCNEGATE(ESLEMAX);
+        }
 #endif
 
         cur_cc = _combin_class(cp);
@@ -962,6 +973,18 @@ EXPORT errno_t _wcsnorm_compose_s_chk(wchar_t *restrict dest, rsize_t dmax,
 #if SIZEOF_WCHAR_T == 2
         if (cp > 0xffff) {
             p++;
+        }
+#else
+        /* A surrogate pair can only represent max _UNICODE_MAX */
+        if (unlikely(_UNICODE_MAX < cp)) {
+            if (seq_ext)
+                free(seq_ext);
+            *lenp = 0;
+            handle_werror(orig_dest, orig_dmax,
+                          "wcsnorm_compose_s: "
+                          "cp is too high",
+                          ESLEMAX);
+            return RCNEGATE(ESLEMAX);
         }
 #endif
 
